@@ -290,15 +290,14 @@ def run(ctx):
             ctx.count("cli:parse:several-specifiers")
             try:
                 text = run_cli(argv)
-                expected = []
-                for sp in specs:
-                    expected += df_numbers(api_data(sp).to_dataframe())
-                got = numbers_csv(text)
+                # one table per input; the order in which the CLI prints them is not part of the property: compare as multisets
+                expected = sorted(df_numbers(api_data(sp).to_dataframe()) for sp in specs)
+                got = sorted(numbers_csv(b) for b in text.strip().split("\n\n") if b.strip())
             except Exception as x:  # noqa
                 ctx.add_failing("cli-raises", inp, observed=f"{type(x).__name__}: {x}"[:200], expected="output", clause="mock-data specifiers denote the same data set as generate_mock_data with those keyword arguments")
                 continue
-            if not close_lists(got, expected, 0.0, 0.0):
-                ctx.add_failing("parse-output-differs", inp, observed=f"{len(got)} numbers, first {got[:5]}", expected=f"{len(expected)} numbers, first {expected[:5]}",
+            if len(got) != len(expected) or not all(close_lists(g_, e_, 0.0, 0.0) for g_, e_ in zip(got, expected)):
+                ctx.add_failing("parse-output-differs", inp, observed=f"{len(got)} tables, first numbers {[g_[:3] for g_ in got]}", expected=f"{len(expected)} tables, first numbers {[e_[:3] for e_ in expected]}",
                                 clause="mock-data specifiers denote the same data set as generate_mock_data with those keyword arguments")
         # circuit --simulate
         for j in range(12 if big else 4):
